@@ -675,6 +675,14 @@ def r01_10(rep, prog):
             if not any(rooted(a) for a in c[2]):
                 continue
             fl = [y[3] for a in c[2] for y in sx.walk(a) if sx.kind(y) == 'field' and y[3] in ('channels', 'stream_channels')]
+            if not fl and sx.callee_name(c) in ('memcpy', 'memmove', 'memset') and rooted(c[2][0]) and \
+                    any(sx.kind(y) == 'param' and y[2] == 'frame_size' or sx.kind(y) == 'local' for y in sx.walk(c[2][2])):
+                # a block copy / clear of the interleaved buffer counted in samples per channel: the channel factor is missing
+                n += 1
+                rep.functions.add(f.name)
+                rep.violated('R01.10', '%s:%s copies whole interleaved frames into the caller\'s PCM' % (prog.config, f.name), '%s:%s' % (f.file, sx.line(c)),
+                             '`%s`: the length counts samples per channel and has no st->channels factor: with two channels half of the frame is left unwritten' % sx.show(c)[:100], key='%s:pcm-copy:%s' % (f.name, sx.line(c)))
+                continue
             if not fl:
                 continue
             n += 1
